@@ -12,14 +12,14 @@ nthm = sum(len(v) for v in thm.values())
 nfiles = len(glob.glob('/verif/coq/theories/*/*.v'))
 nfix = int(subprocess.check_output("git -C /repo log --oneline | grep -c ' fix:'", shell=True).decode())
 models = {
- "C01": ("M_Slicing.v (+ Base/PyIndex.v, Base/Shape.v)", "cubes over sliced / resampled exact linear FITS WCS (lin_wcs) and probe WCS, all basic index items incl. negative / out-of-range / Ellipsis / None, Python and numpy integers, numpy + dask payloads; lookup-table gWCS, already-wrapped (resampled, high-level) WCS and already-sliced cubes (start > 0, explicit stops, recorded array shape) by the direct oracle; `array_shape None` read as 'no shape known'"),
+ "C01": ("M_Slicing.v (+ Base/PyIndex.v, Base/Shape.v)", "cubes over sliced / resampled exact linear FITS WCS (lin_wcs) and probe WCS, all basic index items incl. negative / out-of-range / Ellipsis / None, Python and numpy integers, numpy + dask payloads; lookup-table gWCS, already-wrapped (resampled, high-level) WCS and already-sliced cubes (start > 0, explicit stops, recorded array shape) by the direct oracle; `array_shape None` read as 'no shape known'; ndcube's reordering wrapper (world order not the inverse of the pixel order) and compound wrapper (first member 1 pixel / 2 world axes) as primary WCS, with the correlation matrix stated from the construction"),
  "C02": ("M_ExtraCoords.v", "lookup tables (Quantity 1-3 tables, Time, SkyCoord mesh / not) on any axes, on a 1-D FITS grid, sky meshes; WCS-backed ExtraCoords with permuted / partial mappings, integer items (Python and numpy), chains, names; array dimensions spelled negative / as lists / as numpy ints; multi-table coordinates in either axis order; every cube is asked about itself before each slice in half the cases"),
  "C03": ("M_GlobalCoords.v", "histories of integer slices with branching, user-added global coords, 3-table Quantity coordinates; rot family restricted to 2-D; two generic gWCS frames whose dropped object keys clash (a gwcs limitation) are not generated"),
- "C04": ("M_Crop.v (reuses C14's wrapper evaluator)", "probe WCS with exact edges, TAN / rotated / tan_split families, lookup-table extra coords on 1-3-D cubes, None per independent group and all-None, float values in two unit spellings handed over as float / numpy scalar / 0-d array, Quantities, high-level objects, malformed requests; never-evaluated FITS WCS; meshed SkyCoord extra coords; per-point None layouts incl. points with no coordinate; cubes that are results of a rebin"),
+ "C04": ("M_Crop.v (reuses C14's wrapper evaluator)", "probe WCS with exact edges, TAN / rotated / tan_split families, lookup-table extra coords on 1-3-D cubes, None per independent group and all-None, float values in two unit spellings handed over as float / numpy scalar / 0-d array, Quantities, high-level objects, malformed requests; never-evaluated FITS WCS; meshed SkyCoord extra coords; per-point None layouts incl. points with no coordinate; cubes that are results of a rebin; the result cropped again with the same points (primary wcs, keepdims) must be the result itself (C04_recrop)"),
  "C05": ("M_WorldCoords.v (proofs in P_WorldCoords.v, P_WorldCoordsEC.v)", "every correlation structure up to 3x3 (+ sampled 4x4), wcs / extra_coords / combined_wcs, corners, grouped objects, ask / scribble / add / ask; extra coords coupled to several cube axes in any axis order: WCS-backed ExtraCoords with any correlation matrix and mapping (in the model: world_array_ec, the transposition `relabel`), 2-D per-pixel SkyCoord tables (direct oracle); gWCS primary WCS not generated"),
  "C06": ("M_Wrappers.v (compound), P_Combined.v", "probe WCS with 0-4 linear tables, plain / integer-sliced / rebinned / integer-sliced then rebinned, inspect-before-last-add; extra coords given as an invertible WCS with known shapes; the combined WCS's recorded shape"),
  "C07": ("M_Store.v", "random histories <= 6 steps on cubes / sequences / collections; sharing measured per cube-level step; snapshots of every object after every step; NaN payloads with nan-operations; reprojection of already sliced / rebinned cubes"),
- "C08": ("M_Rebin.v", "all bin shapes dividing shapes up to 4-D, operations mean / sum / min / max / custom, masks, handle_mask, dask (with dask or numpy masks; the result must stay lazy), new_unit; the mask switch as bool / numpy bool / int; pixel Quantities in pix or a pixel-convertible unit"),
+ "C08": ("M_Rebin.v", "all bin shapes dividing shapes up to 4-D, operations mean / sum / min / max / custom, masks, handle_mask, dask (with dask or numpy masks; the result must stay lazy), new_unit; the mask switch as bool / numpy bool / int; pixel Quantities in pix or a pixel-convertible unit; C08_partition / C08_count: the blocks partition the input (no element used twice or lost)"),
  "C09": ("M_Resample.v", "lin / TAN / rotated WCS, lookup-table extra coords incl. SkyCoord in several units and Time, multi-step rebin; one coordinate spanning several axes in any axis order (2-D per-pixel SkyCoord table, two-table Quantity coordinate, WCS-backed ExtraCoords with any mapping) by the direct oracle, with two known findings (q2-grid-shapes, sky2-length1)"),
  "C10": ("M_Arith.v", "see MANIFEST; operands also as numpy unsigned / signed integers; global coords of result and source edited independently; uncertainties carrying a unit different from the cube's are not generated"),
  "C11": ("M_Sequence.v", "exhaustive small index domains; sequences of ragged cubes; Ellipsis alone (tuple and bare); numpy integers; the common axis also in its negative spelling; every second sequence is asked about itself before each step; out-of-range explode axes are unspecified and not judged"),
@@ -29,7 +29,7 @@ models = {
  "C15": ("M_Unwrap.v", "chains of slices and resamplings over FITS WCS with PC or CD matrices; numpy integers in raw slice chains; raw negative items excluded (C01 normalises them before they reach the WCS)"),
  "C16": ("M_RebinUnc.v", "StdDev / Variance / InverseVariance, sum / mean / prod / nan-variants, masks, ignores-mask; NaN data together with operation_ignores_mask: either consistent reading is accepted (NaN members out of sum and divisor, or in both), a mixture is not; the mask switch as bool / numpy bool / int; the user's propagation function as function / partial / bound method / callable object, which must have been called"),
  "C17": ("M_SeqCoords.v (+ M_WorldCoords.v, M_IndexAsCube.v)", "see MANIFEST; cubes of one sequence share one coordinate structure (1-D tables; multi-table coordinates are C02's); tables dropped by slicing and cubes that went through arithmetic, with the expected global names stated independently"),
- "C18": ("M_SeqCrop.v (+ M_Crop.v)", "see MANIFEST; extra-coords wcses by the direct oracle only; wcses as a list of attribute names; cubes sharing one WCS object; per-point None layouts; all points in one pixel; an independent statement of the box; the result cropped again with the same arguments"),
+ "C18": ("M_SeqCrop.v (+ M_Crop.v)", "see MANIFEST; extra-coords wcses by the direct oracle only; wcses as a list of attribute names; cubes sharing one WCS object; per-point None layouts; all points in one pixel; an independent statement of the box; the result cropped again with the same arguments; C18_tight: every bound of the common box is a bound of some cube's own box"),
  "C19": ("M_Lookup.v (+ M_Resample.v)", "see MANIFEST; names / types / units and 2-D SkyCoord tables by the direct oracle only; a 'units' probe (tables in m / km / cm, numpy-integer items); resampling leaves its source unchanged and is repeatable; two-axis coordinates in either axis order"),
  "C20": ("M_Reproject.v", "see MANIFEST; adaptive algorithm: refusals, shape and attributes only; int64 / float32 payloads; shape_out as tuple / list / array; the footprint flag as bool / numpy bool / int; the cube's own WCS as target; WCS objects and global coords of the source untouched"),
 }
@@ -74,7 +74,7 @@ A("transcribed, the NaN + ignores-mask clause is unspecified), C19 (declared nam
 A("oracle only), C20 (the regridding is `reproject`; adaptive: no value check), dask clauses of C01 / C08 / C10 (payloads")
 A("are computed before comparison; laziness itself is not modelled).\n")
 A("### 0.3 Seeded changes: which checks catch which changes\n")
-A(f"{len(seeds)} changes (four rounds of 3 per property and a fifth for ten of them; the later rounds asked for changes that only show through state, unusual argument")
+A(f"{len(seeds)} changes (four rounds of 3 per property, a fifth for ten of them and a sixth round of 2 for eighteen; the later rounds asked for changes that only show through state, unusual argument")
 A("forms, inputs that are themselves results, or coinciding circumstances) were produced by fresh sub-agents that saw")
 A("only the property text and a scratch worktree, confirmed by me in that worktree (demo passes clean / fails patched, pinned")
 A("suite's stable set still passes), stored under `seeded/<id>-<k>/` and run against the check with `tools/try_seed.sh` (apply")
@@ -104,7 +104,9 @@ A("helper, so its refusals are judged against the generator's own knowledge of v
 A("(already-sliced cubes with a recorded array shape, C01-9); asking an object about itself BEFORE deriving from it (C11-9:")
 A("a cache copied into the result; `poke()` now does this in nine modules); payload dtypes other than float64 (C20-9);")
 A("'wrong in the same multiset' inputs (C13-8: right lengths on the wrong aligned axes); degenerate extents on every axis at")
-A("once (C18-8); index tuples that stop before the interesting axis (C12-9).\n")
+A("once (C18-8); index tuples that stop before the interesting axis (C12-9); ndcube's own wrappers as the PRIMARY wcs with")
+A("the expected correlation matrix stated from the construction, never asked of the wrapper (C01-13/14); a sequence object")
+A("that held and served another line-up of cubes before its `data` list was edited in place (C12-13: stale per-list cache).\n")
 A(f"### 0.4 Genuine defects repaired in /repo (`fix:` commits; the pinned suite passes 174/174 after each)\n")
 for x in kf['fixed']:
     A("* " + x[len('fixed: '):])
